@@ -171,3 +171,88 @@ fn limit_twin_m<const M: usize>(args: &Args, rep: &mut Report) {
     rep.sample(j);
     let _ = halloc::totals();
 }
+
+
+/// C18 "doubling while the global allocator and the limit permit" at the edge: the same history is run
+/// without a limit and then with a limit placed exactly at (or up to a few footers above) what the
+/// i-th chunk acquisition of the unlimited run needed.  Up to the first acquisition the limit really
+/// forbids, the limited run must obtain the same chunks: a limit that permits a chunk must not make
+/// the arena settle for a smaller one.
+pub fn run_limit_edge(args: &Args, rep: &mut Report) {
+    crate::dispatch_ma!(args.ma, limit_edge_m, args, rep)
+}
+
+fn limit_edge_m<const M: usize>(args: &Args, rep: &mut Report) {
+    let mut top = Rng::new(Rng::mix(args.seed ^ 0x1ED6, args.shard));
+    let profile = Profile { name: "edge", w: [22, 8, 10, 2, 4, 2, 4, 2, 5, 2, 0, 1, 0, 0, 5, 0, 0, 0], max_size: 12 << 10, max_align_log2: 5 };
+    let run = |hseed: u64, limit: Option<usize>, rep: &mut Report, ctx: &str| -> Option<Vec<(usize, usize)>> {
+        let env = Env { skew: 3, junk: !cfg!(miri), scribble: !cfg!(miri), quarantine: false, cap: 64 << 20 };
+        env.apply(hseed);
+        crate::ledger::reset();
+        rep.ctx = ctx.to_string();
+        let mut s = Sim::<M>::new(hseed, rep, None, false)?;
+        s.limit_mode = 2;
+        if let Some(l) = limit {
+            s.op_set_limit(rep, Some(l));
+        }
+        for _ in 0..args.ops {
+            gen::step(&mut s, rep, &profile);
+        }
+        s.drop_arena(rep);
+        Some(std::mem::take(&mut s.acq_log))
+    };
+    for it in 0..args.iters {
+        let hseed = top.next();
+        let ctx = format!("limit-edge history {} (seed {} shard {} M {})", it, args.seed, args.shard, M);
+        let free = match run(hseed, None, rep, &format!("{} unlimited", ctx)) {
+            Some(l) => l,
+            None => continue,
+        };
+        rep.evaluations += 1;
+        if free.len() < 2 {
+            continue;
+        }
+        let mut picks: Vec<usize> = (1..free.len()).collect();
+        while picks.len() > 5 {
+            let i = top.below(picks.len());
+            picks.swap_remove(i);
+        }
+        for i in picks {
+            let (held, usable) = free[i];
+            for delta in [0usize, top.below(48 * (i + 1)), 48 * (i + 1) - 1] {
+                let limit = held + usable + delta;
+                let lim = match run(hseed, Some(limit), rep, &format!("{} limit {} (= acquisition {} of the unlimited run + {})", ctx, limit, i, delta)) {
+                    Some(l) => l,
+                    None => continue,
+                };
+                rep.evaluations += 1;
+                rep.distinct.insert(crate::report::fnv(hseed, (i as u64) << 32 | delta as u64));
+                for j in 0..free.len() {
+                    if free[j].0 + free[j].1 > limit {
+                        break; // from here on the limit really forbids what the unlimited run did
+                    }
+                    rep.bump("c18.limit_edge_acquisitions_compared");
+                    match lim.get(j) {
+                        Some(&(h, u)) if (h, u) == free[j] => {}
+                        Some(&(h, u)) => {
+                            rep.violate(
+                                "C18",
+                                "C18/chunk-the-limit-permits-was-not-taken",
+                                format!("acquisition {}: without a limit the arena took a chunk of {} usable bytes while holding {}; with limit {} (which permits it) it held {} and took {}", j, free[j].1, free[j].0, limit, h, u),
+                            );
+                            break;
+                        }
+                        None => {
+                            rep.violate("C18", "C18/chunk-the-limit-permits-was-not-taken/request-failed-instead", format!("acquisition {} ({} usable while holding {}) never happened under limit {}", j, free[j].1, free[j].0, limit));
+                            break;
+                        }
+                    }
+                }
+                rep.bump("c18.limit_edge_runs");
+                if rep.violations.len() >= rep.max_violations {
+                    return;
+                }
+            }
+        }
+    }
+}
